@@ -287,7 +287,14 @@ class SchedulerExpression(TaskExpression[Result]):
     def _calc_hash(self) -> str:
         registry = get_type_registry()
         args_hash = hash_arguments(registry, self.args, self.kwargs)
-        return hash_struct(["SchedulerExpression", self.task_name, args_hash])
+        struct = ["SchedulerExpression", self.task_name, args_hash]
+        # Call-time options (and exported options) distinguish expressions just like they do for
+        # TaskExpression. The hash is unchanged (backwards compatible) when there are none.
+        if self._options or self._export_options:
+            struct.append(hash_bytes(pickle_dumps(self._options)))
+        if self._export_options:
+            struct.append(hash_struct(list(sorted(self._export_options))))
+        return hash_struct(struct)
 
 
 class ValueExpression(Expression[Result]):
